@@ -375,6 +375,43 @@ def run(ctx):
                  b'{"p":[{"x":1},{"y":2},{"x":3,"y":4},{}],"u":7}'):
         for fl in (0, 8, 8 | 16, 31, 1):
             add('array-overflow', 'Fix', fl, body)
+    # fixed length arrays of STRUCTS given with FEWER elements than declared (0, 1, n-1, n; reject_array_underflow not set): the missing elements
+    # are zero padded - exactly them: members of the parent struct that FOLLOW the array keep the values given (before or after the array in the
+    # text), and nothing outside the struct / the builder's data stack is written (ASan; the moving-allocator builder has near exact-size blocks)
+    expect = {}        # case index -> expected decoded content
+
+    def rnd_i32(): return rng.choice([1, -1, 2147483647, -2147483648, 0x01020304, rng.randint(-2 ** 31, 2 ** 31 - 1)])
+
+    def mk_struct(name, k):
+        n = {'Tri': 3, 'Poly': 40}[name]
+        val = {'tail': rnd_i32() or 7, 'id': rng.choice([1, -1, 32767, -32768, 12345]), 'pts': [(rnd_i32(), rnd_i32()) for _ in range(k)] + [(0, 0)] * (n - k)}
+        parts = [b'"tail":%d' % val['tail'], b'"id":%d' % val['id']]
+        if name == 'Tri':
+            val['a'] = rnd_i32(); parts.append(b'"a":%d' % val['a'])
+        arr = b'"pts":[' + b','.join(b'{"x":%d,"y":%d}' % p for p in val['pts'][:k]) + b']'
+        order = rng.choice(['before', 'after', 'mixed'])
+        if order == 'before': parts = parts + [arr]
+        elif order == 'after': parts = [arr] + parts
+        else: parts.insert(rng.randint(0, len(parts)), arr)
+        return val, b'{' + b','.join(parts) + b'}'
+
+    for name in ('Tri', 'Poly'):
+        n = {'Tri': 3, 'Poly': 40}[name]
+        for k in (0, 1, n - 1, n, 2 if n > 3 else 1):
+            for rep_ in range(3):
+                for fl in (0, 4, 8, 2):
+                    val, text = mk_struct(name, k)
+                    add('array-underfill', name, fl, text, 1); expect[len(cases) - 1] = val
+                    # as table field and as vector element
+                    gval = {'n': 77}
+                    gparts = [b'"n":77']
+                    if name == 'Poly': gval['poly'] = val; gparts.append(b'"poly":' + text)
+                    else:
+                        v2, t2 = mk_struct('Tri', rng.choice([0, 1, 2, 3])); v3, t3 = mk_struct('Tri', rng.choice([0, 1, 2]))
+                        gval['tri'] = val; gval['vtri'] = [v2, v3]
+                        gparts += [b'"tri":' + text, b'"vtri":[' + t2 + b',' + t3 + b']']
+                    rng.shuffle(gparts)
+                    add('array-underfill', 'Geo', fl, b'{' + b','.join(gparts) + b'}', 1); expect[len(cases) - 1] = gval
     # tables with several required fields: every subset of them omitted (the parse must then fail with `required`)
     req_fields = {'a': [b'"x"', b'""'], 'b': [b'[1,2]', b'[]'], 'c': [b'{"n":1}', b'{}'], 'd': [b'7']}
     for mask in range(16):
@@ -409,13 +446,14 @@ def run(ctx):
     # the same parses on a fresh builder whose allocator moves every block it grows (flatcc_builder_custom_init): a pointer into a
     # builder stack kept across a growing operation is then a heap-use-after-free for ASan, and the result must not depend on the allocator
     moving = [i for i, c in enumerate(cases) if c[0] in ('valid', 'unknown-fields', 'hand', 'nested-struct-object', 'union-tree', 'required-subsets', 'union-tree-truncation',
-                                                           'union-tree-mutation', 'all-flags', 'int-limits-in', 'int-limits-out', 'array-overflow', 'float-terminated')]
+                                                           'union-tree-mutation', 'all-flags', 'int-limits-in', 'int-limits-out', 'array-overflow', 'float-terminated', 'array-underfill')]
     rest = [i for i, c in enumerate(cases) if c[0] in ('truncation', 'mutation', 'ends-at-end', 'random')]
     moving += rng.sample(rest, min(len(rest), 6000 if T else 1500))
     moving.sort()
     # last: 1 MB of nested known fields (a stack overflow kills the harness process)
     add('deep-known-hostile', 'Rec', 0, b'{"r":' * 200000, 1)
-    lines = ['parse %s %d %d 0 %s' % (root, fl, fid, U.hx(text)) for _, root, fl, fid, text in cases]
+    lines = ['parse %s %d %d %d %s' % (root, fl, fid, 1 if klass == 'array-underfill' else 0, U.hx(text)) for klass, root, fl, fid, text in cases]
+    rep = U.run_resilient(H, lines)
     tsel = sorted(set(tcases + [i for i, c in enumerate(cases) if c[0] == 'ends-at-end'] + rng.sample(range(len(cases) - 1), min(len(cases) - 1, 3000 if T else 600))))
     tsel = [i for i in tsel if len(cases[i][4]) <= 4000]
     tlines = ['parset' + lines[i][5:] for i in tsel]
@@ -436,7 +474,6 @@ def run(ctx):
                 a, b, root, fl, len(text), text[-40:]), replay)
     mlines = ['parsem' + lines[i][5:] for i in moving]
     ctx.log('whole parsers: %d requests (+%d on a fresh builder with a moving allocator)' % (len(lines), len(mlines)))
-    rep = U.run_resilient(H, lines)
     mrep = U.run_resilient(H, mlines)
     for i, ml, mr in zip(moving, mlines, mrep):
         klass, root, fl, fid, text = cases[i]
@@ -480,10 +517,22 @@ def run(ctx):
     valid_ok = valid_n = 0
     ub_seen = {}
     beyond = {}
-    for (klass, root, fl, fid, text), line, r in zip(cases, lines, rep):
+    for ci, ((klass, root, fl, fid, text), line, r) in enumerate(zip(cases, lines, rep)):
         ctx.count(line, klass='parse:' + klass)
         n = len(text)
         r, ub = U.split_ub(r)
+        if klass == 'array-underfill' and r.startswith('ASAN'):
+            ctx.violation('struct-array-underfill-overrun', 'zero padding of an underfilled fixed length array of structs writes outside the struct (%s, flags %d): %s on %r' % (root, fl, r[:160], text[:100]),
+                          {'harness': 'json_scan_diff', 'harness_line': line, 'root': root, 'flags': fl, 'input_hex': U.hx(text), 'reply': r[:600]}); continue
+        if klass == 'array-underfill' and r.startswith('OK') and len(r.split()) >= 6 and r.split()[3] == '0':
+            raw = bytes.fromhex(r.split()[5]); ws = bool(fl & 4)
+            got = U.read_geo(raw, ws) if root == 'Geo' else U.read_struct_root(raw, ws, root)
+            want = expect[ci]
+            if got != want:
+                diff = [k for k in want if got is None or got.get(k) != want[k]]
+                ctx.violation('struct-array-underfill-values', 'after parsing a fixed length array of structs given with fewer elements than declared, the finished %s buffer does not hold the values of the text '
+                              '(members after the array must keep their values, padding elements read zero): differs in %s; text %r' % (root, diff, text[:160]),
+                              {'harness': 'json_scan_diff', 'harness_line': line, 'root': root, 'flags': fl, 'input_hex': U.hx(text), 'expected': repr(want)[:1500], 'decoded': repr(got)[:1500]}); continue
         if ub:
             ub_seen.setdefault(ub, line if n < 600 else line[:120] + '...')
         replay = {'harness': 'json_scan_diff', 'harness_line': line if n < 4000 else line[:200] + '...', 'root': root, 'flags': fl, 'fid_mode': fid,
